@@ -150,3 +150,69 @@ def vee(gi, M, what="vee", tol=1e-8):
     res = float(np.max(np.abs(gi._basis_A @ x - m))) if m.size else 0.0
     sc = 1.0 + float(np.max(np.abs(m))) if m.size else 1.0
     return x, res / sc
+
+
+# ---- Euler groups other than the shipped B321 singleton -----------------------------------------------------------
+# SO3EulerLieGroup is an exposed class: users construct other conventions with SO3EulerLieGroup(euler_type, sequence).
+# For those only the operations that do not go through from_Matrix are offered (matrix form, identity, Ad, log, the
+# action on vectors); the others raise NotImplementedError and are out of scope.
+EULER_SEQS = ["zyx", "xyz", "zxz", "xzx", "yxz", "zxy", "yzy", "xzy", "yxy", "zyz", "xyx", "yzx"]
+_EV = {}
+
+
+def euler_variants():
+    """[(name, type, seq, group)] for body- and space-fixed groups of every proper axis sequence."""
+    if "v" not in _EV:
+        with cy.quiet():
+            from cyecca.lie import group_so3 as g3
+        out = []
+        for ty in ("body_fixed", "space_fixed"):
+            for seq in EULER_SEQS:
+                if ty == "body_fixed" and seq == "zyx":
+                    continue  # the shipped SO3EulerB321, covered by the main registry
+                with cy.quiet():
+                    G = g3.SO3EulerLieGroup(euler_type=getattr(g3.EulerType, ty), sequence=[getattr(g3.Axis, a) for a in seq])
+                out.append(("SO3Euler[%s,%s]" % (ty, seq), ty, seq, G))
+        _EV["v"] = out
+    return _EV["v"]
+
+
+def euler_variant_matrix(ty, seq, ang):
+    """Oracle: product of elementary rotations; body-fixed (intrinsic) composes on the right, space-fixed on the left."""
+    el = {"x": ref.Rx, "y": ref.Ry, "z": ref.Rz}
+    m = np.eye(3)
+    for a, t in zip(seq, ang):
+        m = m @ el[a](t) if ty == "body_fixed" else el[a](t) @ m
+    return m
+
+
+def euler_variant_fn(i, key):
+    name, ty, seq, G = euler_variants()[i]
+    k = (i, key)
+    if k not in _EV:
+        def mk():
+            ca = cy.ca
+            X = ca.SX.sym("X", 3)
+            if key == "toM":
+                return [X], [ca.densify(G.elem(X).to_Matrix())]
+            if key == "Ad":
+                return [X], [ca.densify(G.elem(X).Ad())]
+            if key == "log":
+                return [X], [ca.densify(G.elem(X).log().param)]
+            if key == "ident":
+                return [], [ca.densify(G.identity().to_Matrix())]
+            if key == "act":
+                v = ca.SX.sym("v", 3)
+                return [X, v], [ca.densify(G.elem(X) @ v)]
+            raise KeyError(key)
+
+        _EV[k] = cy.Fn("eulervar%d_%s" % (i, key), mk)
+    return _EV[k]
+
+
+@st.composite
+def euler_variant_case(draw):
+    i = draw(st.integers(0, len(EULER_SEQS) * 2 - 2))
+    special = [0.0, 1e-9, PI / 2, -PI / 2, PI, 0.3, -1.1, 2.5]
+    ang = [draw(st.sampled_from(special)) if draw(st.integers(0, 3)) == 0 else draw(gens.fl(-PI, PI)) for _ in range(3)]
+    return {"variant": i, "ang": ang, "y": draw(gens.vector(3, scales=(-1, 0, 1)))}
